@@ -59,20 +59,6 @@ Proof.
 Qed.
 
 (* every value of the result is a value of the target or a merge result *)
-Lemma Forall_aset {A} (P : bytes * A -> Prop) k v m :
-  Forall P m -> (forall k', P (k', v)) -> Forall P (aset k v m).
-Proof.
-  intros H Hv. induction m as [|[k' v'] m IH]; simpl.
-  - constructor; auto.
-  - inversion H; subst. destruct (bseq k k'); constructor; auto.
-Qed.
-
-Lemma Forall_adel {A} (P : bytes * A -> Prop) k m : Forall P m -> Forall P (adel k m).
-Proof.
-  intro H. induction m as [|[k' v'] m IH]; simpl; auto.
-  inversion H; subst. destruct (bseq k k'); auto.
-Qed.
-
 Lemma onodup_members j : onodup j = true ->
   NoDup (map fst (members_of j)) /\ Forall (fun kv => onodup (snd kv) = true) (members_of j).
 Proof.
